@@ -10,7 +10,7 @@ HEADER = "From Coq Require Import ZArith List.\nFrom TV Require Import Common.Ha
 CASE_T = "C12.Corr.case"
 PROPS = ["C12/Props.v"]
 CLAUSE = {1: "stale-read", 2: "getter-ran-twice", 3: "change-not-notified", 4: "event-announces-stale-value"}
-PNAMES = ["scalar", "child", "kids", "dict", "set", "nums", "nested", "kidchild", "multi", "chain", "mitems", "sitems", "raw"]
+PNAMES = ["scalar", "child", "kids", "dict", "set", "nums", "nested", "kidchild", "multi", "chain", "mitems", "sitems", "raw", "xscalar"]
 KEYS = ["ka", "kb", "kc"]
 
 
@@ -76,7 +76,7 @@ def nontrivial(case, obs):
 RELEVANT = {  # traits whose mutation matters for each property (steers the generator only)
     "scalar": ["value"], "child": ["child", "value"], "kids": ["kids", "value"], "dict": ["m", "value"],
     "set": ["s", "value"], "nums": ["nums"], "nested": ["child", "kids", "value"],
-    "kidchild": ["kids", "child", "value"], "multi": ["value", "child", "nums"], "chain": ["value"], "mitems": ["m"], "sitems": ["s"], "raw": ["raw"],
+    "kidchild": ["kids", "child", "value"], "multi": ["value", "child", "nums"], "chain": ["value"], "mitems": ["m"], "sitems": ["s"], "raw": ["raw"], "xscalar": ["value"],
 }
 
 
@@ -188,7 +188,7 @@ def gen_case(rnd, ctx, maxlen):
     ctx.count("property:" + pname)
     ctx.count("cached:%s" % cached)
     ctx.count("history-length:%02d" % len(ops))
-    sub = cached and rnd.random() < 0.2
+    sub = cached and pname != "xscalar" and rnd.random() < 0.2
     ctx.count("subclass-overriding-getter-with-cached_property:%s" % sub)
     kw = rnd.random() < 0.3
     ctx.count("constructed-with-kwargs:%s" % kw)
